@@ -62,6 +62,10 @@ fn record(src: SocketAddr, dst: SocketAddr, name: &[u8], payload: &[u8], len_ove
     out
 }
 
+pub fn build_record(src: SocketAddr, dst: SocketAddr, name: &[u8], payload: &[u8]) -> Vec<u8> {
+    record(src, dst, name, payload, None)
+}
+
 /// the bytes of record `kind` at position `pos` of a sequence (the payload carries `pos`)
 pub fn build(kind: usize, pos: u8) -> Vec<u8> {
     let s4: SocketAddr = "10.0.0.1:1000".parse().unwrap();
